@@ -81,7 +81,10 @@ StepCall(ev) ==
       nreg == Cardinality({ h \in DOMAIN R1.hooks : R1.hooks[h] = 1 })
       kind == IF ev.e = "OpenMidi" /\ ev.bad = 0 /\ ~failed THEN ev.s ELSE 0       \* the accepted file
   IN /\ pre' = a /\ R' = R1 /\ exec' = exec
-     /\ fails' = (IF Rearm(ev) THEN AddFails(Tag(f \ seen, ev), FALSE) ELSE AddFails(Tag(f, ev), xf))
+     \* (once a rejected load has ended the set-up lock of the instance - listed finding F39 - the instance is in a state the
+     \*  model does not have and the twin, which skipped that call, is no oracle any more: nothing is re-armed in that execution)
+     /\ fails' = (IF Rearm(ev) /\ "reject-unlocked" \notin seen THEN AddFails(Tag(f \ seen, ev), FALSE)
+                  ELSE AddFails(Tag(f, ev), xf))
      /\ xf' = (xf \/ f # {}) /\ seen' = seen \cup f
      /\ nl' = nl + B2N(ev.e = "OpenMidi" /\ R.hasBank)          \* music files handed to this instance so far
      /\ drift' = IF ~ok0 /\ ~ok1 /\ Len(drift) < 8
